@@ -2,3 +2,4 @@ pub mod interp;
 pub mod ops;
 pub mod reg;
 pub mod runner;
+pub mod crash;
